@@ -121,10 +121,13 @@ let handle (case : string) (out : string) : unit =
   count (Printf.sprintf "case:n%d" nst);
   List.iter (fun s -> count ("state:" ^ s.s_state)) samples;
   let pmax = List.fold_left (fun acc st -> max acc (int_of_string st.(4))) 0 stations in
-  let known_f12 = known_handover_b cfg (zo pmax) in
-  if in_class && known_f12 then count "case:in-known-class-F12";
-  let fail prop oracle = if in_class && resp_in_class && known_f12 then report_known prop "F20" (oracle ^ " | " ^ case)
-    else if in_class && resp_in_class then report_fail prop oracle case (Printf.sprintf "%d transmissions" (List.length tr))
+  (* the former known class of finding F20 (3 Pmax + 44 bit + 4 us >= Tslot): repaired in the crate (a station with
+     nothing to send passes the token in the poll that finds that out), so these scenarios are no longer excused -
+     they are only counted, to show that the class is still exercised *)
+  let former_f20 = slot * 1000000 <= 3 * pmax * ratei + 44 * 1000000 + 4 * ratei in
+  if in_class && former_f20 then count "case:in-former-class-F20";
+  let fail prop oracle =
+    if in_class && resp_in_class then report_fail prop oracle case (Printf.sprintf "%d transmissions" (List.length tr))
     else count ("outside-class-violation:" ^ prop ^ ":" ^ oracle) in
   (match !panicked with
    | Some loc -> report_fail (if fault_free then "C01" else "C06") ("no_panic " ^ loc) case ""
@@ -196,9 +199,9 @@ let handle (case : string) (out : string) : unit =
    | x :: _ when List.length (passes clean) >= 2 * List.length final_pop ->
        let b = bucket_ratio (int_of_z x.tx_start / ratei - last_dist) t_conv_us in
        count ((if fault_free && not !raced then "c02" else "c06") ^ ":converged-in:" ^ b);
-       if verbose && b = ">100%" then Printf.printf "INFO late-convergence known=%b in_class=%b | %s\n" known_f12 in_class case
+       if verbose && b = ">100%" then Printf.printf "INFO late-convergence former_f20=%b in_class=%b | %s\n" former_f20 in_class case
    | _ -> count ((if fault_free && not !raced then "c02" else "c06") ^ ":not-clean-at-end");
-       if verbose then Printf.printf "INFO not-clean-at-end known=%b in_class=%b | %s\n" known_f12 in_class case);
+       if verbose then Printf.printf "INFO not-clean-at-end former_f20=%b in_class=%b | %s\n" former_f20 in_class case);
   if fault_free && not !raced then begin
     (* C02: every stable interval between population changes that is longer than the bound *)
     let times = List.sort_uniq compare (List.map (fun (t, _, _) -> t) changes) in
